@@ -798,7 +798,10 @@ def _glue(ctx, reqs, pending, only=None):
         try:
             ds = _glue_dataset(frames, ts, ba, bs, pi, pr, pc, drop_stored)
         except Exception as e:  # noqa: BLE001
-            ctx.fail(case, f'a valid frame could not be encoded: {type(e).__name__}: {str(e)[:120]}', site='glue-encode')
+            if _classify_exception(e) == 'codec':       # a limit of the codec below (pyjpegls on small noisy frames): a refusal, no bytes
+                ctx.hist('glue_codec_limit', TSNAME[ts])
+            else:
+                ctx.fail(case, f'a valid frame could not be encoded: {type(e).__name__}: {str(e)[:120]}', site='glue-encode')
             continue
         res = _glue_reads(ds, nfr, num, as_index)
         if isinstance(res, dict):
